@@ -187,7 +187,7 @@ Fixpoint ms_struct (keys : list bytes) (parsed : option bool) (sigs : list bytes
               let der := uses_der_parser c in
               let with_parsed (p' : option bool) : loop_res :=
                 if negb (orc_parse_pub orc pubKey) then ms_struct krest p' sigs else
-                match unparse script with
+                match unparse (sig_code_ops c script (b2n hb)) with
                 | None => LPushFalse
                 | Some up =>
                     match sighash_for t in_idx up shf with
@@ -326,7 +326,7 @@ Proof.
       * (* parsed, valid *)
         destruct (negb (check_pubkey_enc c pk)); [reflexivity|].
         destruct (negb (orc_parse_pub orc pk)); [rewrite Hcont, Em by assumption; reflexivity|].
-        destruct (unparse script); [|reflexivity].
+        destruct (unparse (sig_code_ops c script (b2n hb))); [|reflexivity].
         destruct (sighash_for t in_idx l (b2n hb)); try reflexivity.
         destruct (orc_verify orc pk b sg (uses_der_parser c)) as [[|]|]; [apply Hadv; assumption| |reflexivity].
         rewrite Hcont, Em by assumption. reflexivity.
@@ -340,7 +340,7 @@ Proof.
         destruct (Hupd (Some (orc_parse_sig orc (uses_der_parser c) sg))) as (U1 & U2 & U3).
         destruct (orc_parse_sig orc (uses_der_parser c) sg) eqn:Eps.
         -- destruct (negb (orc_parse_pub orc pk)); [rewrite Hcont, U3 by assumption; reflexivity|].
-           destruct (unparse script); [|reflexivity].
+           destruct (unparse (sig_code_ops c script (b2n hb))); [|reflexivity].
            destruct (sighash_for t in_idx l (b2n hb)); try reflexivity.
            destruct (orc_verify orc pk b sg (uses_der_parser c)) as [[|]|]; [apply Hadv; assumption| |reflexivity].
            rewrite Hcont, U3 by assumption. reflexivity.
@@ -377,7 +377,7 @@ Proof.
   cbv zeta.
   assert (Hwp : forall p',
     (if negb (orc_parse_pub orc pk) then ms_struct orc t in_idx c script krest p' (rawSig :: srest)
-     else match unparse script with
+     else match unparse (sig_code_ops c script (b2n hb)) with
           | Some up =>
               match sighash_for t in_idx up (b2n hb) with
               | SOk h =>
@@ -392,7 +392,7 @@ Proof.
           | None => LPushFalse
           end) <> LPanic /\
     (if negb (orc_parse_pub orc pk) then ms_struct orc t in_idx c script krest p' (rawSig :: srest)
-     else match unparse script with
+     else match unparse (sig_code_ops c script (b2n hb)) with
           | Some up =>
               match sighash_for t in_idx up (b2n hb) with
               | SOk h =>
@@ -407,7 +407,7 @@ Proof.
           | None => LPushFalse
           end) <> LFuel).
   { intros p'. destruct (negb (orc_parse_pub orc pk)); [apply IH|].
-    destruct (unparse script) as [up|]; [|split; discriminate].
+    destruct (unparse (sig_code_ops c script (b2n hb))) as [up|]; [|split; discriminate].
     destruct (sighash_for_total t in_idx up (b2n hb) Hok) as [[h ->]|[e ->]]; [|split; discriminate].
     destruct (orc_verify orc pk h sg (uses_der_parser c)) as [[|]|]; [apply IH|apply IH|split; discriminate]. }
   pose proof (check_sig_enc_no_panic c sg) as Hnp.
@@ -447,7 +447,8 @@ Proof.
   assert (Hg : forall b, good s (finish_verify vf (push_bool s1 b))).
   { intros b. apply good_finish, good_push_bool. reflexivity. }
   assert (Hge : good s (finish_verify vf OErr)) by (apply good_finish, good_err).
-  destruct (split_last full) as [[sg hb]|]; cbn [option_map]; [|apply Hg].
+  destruct (split_last full) as [[sg hb]|]; cbn [option_map];
+    [|destruct (negb (check_pubkey_enc c pk)); cbn [option_map]; [exact Hge|apply Hg]].
   destruct (negb (check_hash_type c (b2n hb))); cbn [option_map]; [exact Hge|].
   pose proof (check_sig_enc_no_panic c sg) as Hnp.
   destruct (check_sig_enc c sg); cbn [option_map]; [|exact Hge|congruence].
@@ -472,13 +473,13 @@ Lemma checkmultisig_good orc t i c s idx vf : tx_ctx_ok t i ->
 Proof.
   intros Hok. unfold checkmultisig_run.
   destruct (ds s) as [|nk d1]; [apply good_err|].
-  destruct (pop_num c nk) as [nkz|]; [|apply good_err]. cbv zeta.
+  destruct (pop_count c nk) as [nkz|]; [|apply good_err]. cbv zeta.
   destruct (Z.ltb_spec (to_int32 nkz) 0) as [|Hnk]; [apply good_err|].
   destruct (max_pubkeys c <? to_int32 nkz)%Z; [apply good_err|].
   destruct (max_ops c <? nops s + to_int32 nkz)%Z; [apply good_err|].
   destruct (pop_n (to_int32 nkz) d1) as [[pks d2]|] eqn:Ep; [|apply good_err].
   destruct d2 as [|ns d3]; [apply good_err|].
-  destruct (pop_num c ns) as [nsz|]; [|apply good_err].
+  destruct (pop_count c ns) as [nsz|]; [|apply good_err].
   destruct (Z.ltb_spec (to_int32 nsz) 0) as [|Hns]; [apply good_err|].
   destruct (to_int32 nkz <? to_int32 nsz)%Z; [apply good_err|].
   destruct (pop_n (to_int32 nsz) d3) as [[sigs d4]|] eqn:Es; [|apply good_err].
@@ -522,7 +523,7 @@ Definition pair_ok (raw pk : bytes) : bool :=
   | None => false
   | Some (sg, hb) =>
       orc_parse_sig orc (uses_der_parser c) sg && orc_parse_pub orc pk &&
-      match unparse script with
+      match unparse (sig_code_ops c script (b2n hb)) with
       | Some up =>
           match sighash_for t in_idx up (b2n hb) with
           | SOk h => match orc_verify orc pk h sg (uses_der_parser c) with Some true => true | _ => false end
@@ -539,7 +540,7 @@ Definition sig_well_encoded (raw : bytes) : Prop :=
   match split_last raw with
   | None => True
   | Some (sg, hb) => check_hash_type c (b2n hb) = true /\ check_sig_enc c sg = EncOk /\
-                     exists up h, unparse script = Some up /\ sighash_for t in_idx up (b2n hb) = SOk h
+                     exists up h, unparse (sig_code_ops c script (b2n hb)) = Some up /\ sighash_for t in_idx up (b2n hb) = SOk h
   end.
 Definition key_well_encoded (pk : bytes) : Prop := check_pubkey_enc c pk = true.
 Definition oracle_total : Prop := forall pk h sg der, orc_verify orc pk h sg der <> None.
